@@ -5,6 +5,10 @@
 //!   ops: w<len>.<seed>  write_all(len bytes) | W<len>.<seed> write() | d<ty>:<value> ascii_digits
 //!        p<len>.<blen>.<seed> buf_write_ptr(len) + blen bytes + advance_unchecked(blen)
 //!        fl flush | fd flush_defer_err | ck check_io_error | dr drop
+//!        udrop  (last op) the CALLER panics while the writer is alive: the writer is dropped by the
+//!               unwinding; the sink must still receive everything (same as `dr` in the model)
+//!        x<count>:<op>  the write-like op (w, W, d, p) `count` times, data seed + iteration;
+//!               its result is run-length coded (`ok*5`, `ptr*3/null*2`)
 use crate::common::*;
 use flussab::{write::text as wtext, DeferredWriter};
 use std::cell::RefCell;
@@ -144,14 +148,87 @@ fn is_subsequence(small: &[u8], big: &[u8]) -> bool {
     i == small.len()
 }
 
+/// One write-like op (`w`, `W`, `d`, `p`) on the real writer; `k` is added to the data seed.
+fn write_like(w: &mut DeferredWriter, op: &str, i: usize, k: usize, written: &mut Vec<u8>, fails: &mut Vec<String>) -> &'static str {
+    let mut fail = |m: String| {
+        if fails.len() < 8 {
+            fails.push(m)
+        }
+    };
+    if let Some(rest) = op.strip_prefix('w').or(op.strip_prefix('W')) {
+        let mut it = rest.split('.');
+        let len: usize = it.next().unwrap().parse().unwrap();
+        let seed: usize = it.next().unwrap().parse().unwrap();
+        let data = gen_bytes(len, seed + k);
+        written.extend_from_slice(&data);
+        let use_write = op.starts_with('W');
+        match catch(|| {
+            if use_write {
+                w.write(&data).map(|n| n == data.len())
+            } else {
+                w.write_all(&data).map(|_| true)
+            }
+        }) {
+            Some(Ok(true)) => "ok",
+            Some(Ok(false)) => {
+                fail(format!("C11:op{} write accepted fewer bytes than given", i));
+                "short"
+            }
+            Some(Err(_)) => {
+                fail(format!("C11:op{} write call returned an error", i));
+                "err"
+            }
+            None => "panic",
+        }
+    } else if let Some(rest) = op.strip_prefix('d').filter(|r| r.contains(':')) {
+        let (ty, val) = rest.split_once(':').unwrap();
+        // the reference text is appended first so that a panic mid-way keeps the oracle sound
+        let canon = val.trim_start_matches('+').to_string();
+        written.extend_from_slice(canon.as_bytes());
+        match catch(|| digits_op(w, ty, val)) {
+            Some(s) => {
+                if s != canon {
+                    fail(format!("C11:op{} harness numeral mismatch {} vs {}", i, s, canon));
+                }
+                "ok"
+            }
+            None => "panic",
+        }
+    } else if let Some(rest) = op.strip_prefix('p') {
+        let mut it = rest.split('.');
+        let len: usize = it.next().unwrap().parse().unwrap();
+        let blen: usize = it.next().unwrap().parse().unwrap();
+        let seed: usize = it.next().unwrap().parse().unwrap();
+        let p = w.buf_write_ptr(len);
+        if p.is_null() {
+            "null"
+        } else {
+            let data = gen_bytes(blen.min(len), seed + k);
+            unsafe {
+                std::ptr::copy_nonoverlapping(data.as_ptr(), p, data.len());
+                w.advance_unchecked(data.len());
+            }
+            written.extend_from_slice(&data);
+            "ptr"
+        }
+    } else {
+        "bad-op"
+    }
+}
+
+fn is_write_like(op: &str) -> bool {
+    op.starts_with('w') || op.starts_with('W') || op.starts_with('p') || (op.starts_with('d') && op.contains(':'))
+}
+
 pub fn run_case(line: &str) -> (String, Vec<String>) {
     let (_, f) = Fields::parse(line);
     let sched = parse_sched(f.get("s"));
     let benign = sched.iter().all(|e| matches!(e, WEv::Accept(_) | WEv::Intr));
+    let sink_may_panic = sched.iter().any(|e| matches!(e, WEv::Panic));
     let sink = Sink(Rc::new(RefCell::new(SinkState { sched: sched.into(), ..Default::default() })));
     let mut w = ManuallyDrop::new(DeferredWriter::from_write(sink.clone()));
     let mut written: Vec<u8> = vec![];
-    let mut out = vec![];
+    let mut out: Vec<String> = vec![];
     let mut fails = vec![];
     let mut dropped = false;
     let mut reports_after_failure = 0usize;
@@ -162,62 +239,23 @@ pub fn run_case(line: &str) -> (String, Vec<String>) {
         if dropped {
             break;
         }
-        let res: String = if let Some(rest) = op.strip_prefix('w').or(op.strip_prefix('W')) {
-            let mut it = rest.split('.');
-            let len: usize = it.next().unwrap().parse().unwrap();
-            let seed: usize = it.next().unwrap().parse().unwrap();
-            let data = gen_bytes(len, seed);
-            written.extend_from_slice(&data);
-            let use_write = op.starts_with('W');
-            match catch(|| {
-                if use_write {
-                    w.write(&data).map(|n| n == data.len())
-                } else {
-                    w.write_all(&data).map(|_| true)
+        let res: String = if let Some((count, inner)) = op.strip_prefix('x').and_then(|r| r.split_once(':')).filter(|(_, inner)| is_write_like(inner)) {
+            // repeated write-like op; results run-length coded
+            let count: usize = count.parse().unwrap();
+            let mut runs: Vec<(&'static str, usize)> = vec![];
+            for k in 0..count {
+                let r = write_like(&mut w, inner, i, k, &mut written, &mut fails);
+                if r == "panic" {
+                    panicked_any = true;
                 }
-            }) {
-                Some(Ok(true)) => "ok".into(),
-                Some(Ok(false)) => {
-                    fails.push(format!("C11:op{} write accepted fewer bytes than given", i));
-                    "short".into()
+                match runs.last_mut() {
+                    Some((last, n)) if *last == r => *n += 1,
+                    _ => runs.push((r, 1)),
                 }
-                Some(Err(_)) => {
-                    fails.push(format!("C11:op{} write call returned an error", i));
-                    "err".into()
-                }
-                None => "panic".into(),
             }
-        } else if let Some(rest) = op.strip_prefix('d').filter(|r| r.contains(':')) {
-            let (ty, val) = rest.split_once(':').unwrap();
-            // the reference text is appended first so that a panic mid-way keeps the oracle sound
-            let canon = val.trim_start_matches('+').to_string();
-            written.extend_from_slice(canon.as_bytes());
-            match catch(|| digits_op(&mut w, ty, val)) {
-                Some(s) => {
-                    if s != canon {
-                        fails.push(format!("C11:op{} harness numeral mismatch {} vs {}", i, s, canon));
-                    }
-                    "ok".into()
-                }
-                None => "panic".into(),
-            }
-        } else if let Some(rest) = op.strip_prefix('p') {
-            let mut it = rest.split('.');
-            let len: usize = it.next().unwrap().parse().unwrap();
-            let blen: usize = it.next().unwrap().parse().unwrap();
-            let seed: usize = it.next().unwrap().parse().unwrap();
-            let data = gen_bytes(blen.min(len), seed);
-            let p = w.buf_write_ptr(len);
-            if p.is_null() {
-                "null".into()
-            } else {
-                unsafe {
-                    std::ptr::copy_nonoverlapping(data.as_ptr(), p, data.len());
-                    w.advance_unchecked(data.len());
-                }
-                written.extend_from_slice(&data);
-                "ptr".into()
-            }
+            if runs.is_empty() { "-".to_string() } else { runs.iter().map(|(r, n)| format!("{}*{}", r, n)).collect::<Vec<_>>().join("/") }
+        } else if is_write_like(op) {
+            write_like(&mut w, op, i, 0, &mut written, &mut fails).to_string()
         } else {
             match *op {
                 "fl" => match catch(|| w.flush()) {
@@ -233,12 +271,27 @@ pub fn run_case(line: &str) -> (String, Vec<String>) {
                     Ok(()) => "ok".into(),
                     Err(_) => "err".into(),
                 },
-                "dr" => {
+                // a sink that may panic would turn the unwinding drop into a double panic (process
+                // abort, in the original code as well): such a case runs as an ordinary drop
+                "dr" | "udrop" if *op == "dr" || sink_may_panic => {
                     dropped = true;
                     match catch(|| unsafe { ManuallyDrop::drop(&mut w) }) {
                         Some(()) => "ok".into(),
                         None => "panic".into(),
                     }
+                }
+                "udrop" => {
+                    dropped = true;
+                    // the caller's code panics with the writer alive; the unwinding drops it
+                    let caller = |alive: DeferredWriter| {
+                        let _alive = alive;
+                        if written.len() != usize::MAX {
+                            panic!("caller panic");
+                        }
+                    };
+                    let unwound = catch(|| caller(unsafe { ManuallyDrop::take(&mut w) }));
+                    debug_assert!(unwound.is_none());
+                    "ok".into()
                 }
                 _ => "bad-op".into(),
             }
@@ -288,7 +341,7 @@ pub fn run_case(line: &str) -> (String, Vec<String>) {
                 reports_after_failure = 0;
             }
         }
-        if benign && !panicked_any && matches!(*op, "fl" | "fd" | "dr") && res == "ok" {
+        if benign && !panicked_any && matches!(*op, "fl" | "fd" | "dr" | "udrop") && res == "ok" {
             let s = sink.0.borrow();
             if s.sunk != written {
                 fails.push(format!(
@@ -352,6 +405,9 @@ fn rand_value(rng: &mut Rng, min: i128, max: u128) -> String {
 }
 
 pub fn gen_case(rng: &mut Rng, thorough: bool) -> String {
+    if crate::eng_scan::cli_opt_has("scale") {
+        return gen_scale(rng, thorough);
+    }
     // sink schedule
     let mut sched = vec![];
     let style = rng.below(5);
@@ -423,6 +479,222 @@ pub fn gen_case(rng: &mut Rng, thorough: bool) -> String {
     }
     if rng.chance(5, 6) {
         ops.push("dr".into());
+    }
+    // drawn last, so the histories of a given seed are the ones generated before this op existed:
+    // the final drop happens while the caller unwinds (never with a sink that may panic: that
+    // would be a double panic)
+    if rng.chance(1, 3) && ops.last().map(|o| o == "dr").unwrap_or(false) && !sched.iter().any(|e| e == "p") {
+        *ops.last_mut().unwrap() = "udrop".into();
+    }
+    format!(
+        "writer s={} o={}",
+        if sched.is_empty() { "-".to_string() } else { sched.join(",") },
+        ops.join(",")
+    )
+}
+
+// ------------------------------------------------------------------ scale family (`--opt scale`)
+
+use crate::eng_scan::{scale_plan, ScaleDim};
+
+static SCALE_IDX: std::sync::atomic::AtomicUsize = std::sync::atomic::AtomicUsize::new(0);
+static SCALE_PLAN: std::sync::OnceLock<Vec<(usize, usize, bool)>> = std::sync::OnceLock::new();
+
+const D_WSIZE: usize = 0; // length of one write
+const D_TOTAL: usize = 1; // total bytes written by many medium writes
+const D_COUNT: usize = 2; // number of tiny writes / integers / pointer writes
+const D_FLUSH: usize = 3; // bytes between two flushes (periodic)
+const D_PTR: usize = 4; // length asked of buf_write_ptr
+const D_ACCEPT: usize = 5; // bytes the sink accepts per call
+const D_FAILAT: usize = 6; // bytes the sink accepts before it fails
+
+pub fn gen_scale(rng: &mut Rng, thorough: bool) -> String {
+    let idx = SCALE_IDX.fetch_add(1, std::sync::atomic::Ordering::Relaxed);
+    let plan = SCALE_PLAN.get_or_init(|| {
+        // model cost: ~0.5 us per byte written, sink appends are quadratic in the number of sink
+        // calls, each tiny write copies the 16 KiB buffer
+        let o = ScaleDim::new(10, 20, 22, 16, 1);
+        let dims = [
+            o,
+            ScaleDim::new(10, 22, 23, 16, 1).model_max((1 << 20) + 64, (1 << 20) + 64).rest_big(),
+            ScaleDim::new(10, 21, 22, 12, 1).model_max((1 << 12) + 64, (1 << 13) + 64).rest_big(),
+            o,
+            ScaleDim::new(10, 21, 22, 18, 2),
+            o,
+            o,
+        ];
+        scale_plan(&mut rng.fork(), &dims, thorough)
+    });
+    if idx == 0 && std::env::var("VH_SCALE_INFO").is_ok() {
+        eprintln!("writer scale plan: {} cases per pass", plan.len());
+    }
+    let (dim, size, big) = plan[idx % plan.len()];
+    let line = gen_scale_case(rng, dim, size);
+    if big { format!("{} big=1", line) } else { line }
+}
+
+fn gen_scale_case(rng: &mut Rng, dim: usize, size: usize) -> String {
+    let sizes = scale_sizes(10, 21);
+    let sd = |rng: &mut Rng| rng.below(200);
+    let mut ops: Vec<String> = vec![];
+    let mut sched: Vec<String> = vec![];
+    // something already buffered when the interesting op arrives
+    let est = *rng.pick(&[0usize, 0, 1, CAP - 1, CAP, 100, 8000]);
+    let est = if rng.chance(1, 4) { rng.range(0, CAP as u64) as usize } else { est };
+    // total of `total` bytes as writes of `m` bytes
+    let chunks = |rng: &mut Rng, ops: &mut Vec<String>, total: usize, m: usize| {
+        let (q, r) = (total / m, total % m);
+        let big_w = if rng.chance(1, 4) { "W" } else { "w" };
+        if q == 1 {
+            ops.push(format!("{}{}.{}", big_w, m, rng.below(200)));
+        } else if q > 1 {
+            ops.push(format!("x{}:{}{}.{}", q, big_w, m, rng.below(200)));
+        }
+        if r > 0 {
+            ops.push(format!("w{}.{}", r, rng.below(200)));
+        }
+    };
+    let medium = |rng: &mut Rng| -> usize {
+        match rng.below(8) {
+            0 => 512,
+            1 => 1000,
+            2 => 4096,
+            3 => CAP - 1,
+            4 => CAP,
+            5 => CAP + 1,
+            6 => 2 * CAP + 3,
+            _ => rng.range(512, 3 * CAP as u64) as usize,
+        }
+    };
+    let benign_sched = |rng: &mut Rng, sched: &mut Vec<String>, sizes: &[usize]| {
+        for _ in 0..(if rng.chance(1, 2) { 0 } else { rng.range(1, 5) }) {
+            sched.push(if rng.chance(1, 4) { "i".into() } else { format!("a{}", match rng.below(4) { 0 => rng.range(1, 9) as usize, 1 => CAP, _ => *rng.pick(sizes) }) });
+        }
+    };
+    match dim {
+        D_WSIZE => {
+            if est > 0 {
+                ops.push(format!("w{}.{}", est, sd(rng)));
+            }
+            ops.push(format!("{}{}.{}", if rng.chance(1, 3) { "W" } else { "w" }, size, sd(rng)));
+            if rng.chance(1, 2) {
+                ops.push(format!("di64:{}", -(rng.below(1 << 40) as i64)));
+                ops.push(format!("w{}.{}", rng.range(0, 40), sd(rng)));
+            }
+            if rng.chance(1, 3) {
+                ops.push((*rng.pick(&["fl", "fd", "ck"])).into());
+                ops.push(format!("w{}.{}", *rng.pick(&[1usize, CAP, size]), sd(rng)));
+            }
+            benign_sched(rng, &mut sched, &sizes);
+        }
+        D_TOTAL => {
+            let m = medium(rng);
+            if rng.chance(1, 3) {
+                chunks(rng, &mut ops, size / 2, m);
+                ops.push((*rng.pick(&["fl", "fd"])).into());
+                chunks(rng, &mut ops, size - size / 2, m);
+            } else {
+                chunks(rng, &mut ops, size, m);
+            }
+            benign_sched(rng, &mut sched, &sizes);
+        }
+        D_COUNT => {
+            if est > 0 && rng.chance(1, 2) {
+                ops.push(format!("w{}.{}", est, sd(rng)));
+            }
+            let inner = match rng.below(8) {
+                0 => format!("w0.{}", sd(rng)),
+                1 | 2 => format!("w1.{}", sd(rng)),
+                3 => format!("W{}.{}", rng.range(1, 4), sd(rng)),
+                4 | 5 => {
+                    let (ty, min, max) = *rng.pick(TYPES);
+                    format!("d{}:{}", ty, rand_value(rng, min, max))
+                }
+                6 => format!("p{}.{}.{}", rng.range(1, 8), rng.range(0, 8), sd(rng)),
+                _ => format!("w{}.{}", rng.range(2, 17), sd(rng)),
+            };
+            if rng.chance(1, 3) {
+                ops.push(format!("x{}:{}", size / 2, inner));
+                ops.push((*rng.pick(&["fl", "fd", "ck"])).into());
+                ops.push(format!("x{}:{}", size - size / 2, inner));
+            } else {
+                ops.push(format!("x{}:{}", size, inner));
+            }
+            benign_sched(rng, &mut sched, &sizes);
+        }
+        D_FLUSH => {
+            let reps = if size > 1 << 18 { 2 } else { rng.range(2, 4) as usize };
+            let m = medium(rng);
+            for _ in 0..reps {
+                if rng.chance(1, 2) {
+                    ops.push(format!("w{}.{}", size, sd(rng)));
+                } else {
+                    chunks(rng, &mut ops, size, m);
+                }
+                ops.push((*rng.pick(&["fl", "fl", "fd"])).into());
+            }
+            benign_sched(rng, &mut sched, &sizes);
+        }
+        D_PTR => {
+            let room_est = *rng.pick(&[0usize, CAP.saturating_sub(size), CAP.saturating_sub(size) + 1, CAP.saturating_sub(size).saturating_sub(1), est]);
+            if room_est > 0 {
+                ops.push(format!("w{}.{}", room_est.min(CAP), sd(rng)));
+            }
+            let blen = *rng.pick(&[0usize, size, size / 2, 1]);
+            ops.push(format!("p{}.{}.{}", size, blen, sd(rng)));
+            ops.push(format!("du64:{}", rng.next()));
+            ops.push(format!("p{}.{}.{}", size, size, sd(rng)));
+            if rng.chance(1, 2) {
+                ops.push("fl".into());
+                ops.push(format!("p{}.{}.{}", size, size, sd(rng)));
+                ops.push(format!("p{}.{}.{}", size + 1, 1, sd(rng)));
+            }
+            benign_sched(rng, &mut sched, &sizes);
+        }
+        D_ACCEPT => {
+            for _ in 0..rng.range(1, 3) {
+                if rng.chance(1, 5) {
+                    sched.push("i".into());
+                }
+                sched.push(format!("a{}", size));
+            }
+            if est > 0 && rng.chance(1, 2) {
+                ops.push(format!("w{}.{}", est, sd(rng)));
+            }
+            let w = *rng.pick(&[size + 1, 2 * size + 3, 3 * size, size + CAP, size.max(2) - 1]);
+            ops.push(format!("w{}.{}", w, sd(rng)));
+            ops.push(format!("w{}.{}", rng.range(0, 100), sd(rng)));
+        }
+        _ => {
+            // D_FAILAT: the sink takes `size` bytes, then fails
+            if rng.chance(1, 4) {
+                sched.push("i".into());
+            }
+            sched.push(format!("a{}", size));
+            if rng.chance(1, 4) {
+                sched.push("i".into());
+            }
+            sched.push((*rng.pick(&["f", "f", "z"])).into());
+            let w = size + *rng.pick(&[1usize, 2, CAP - 1, CAP, CAP + 1, 3 * CAP]);
+            if rng.chance(1, 2) {
+                ops.push(format!("w{}.{}", w, sd(rng)));
+            } else {
+                let m = medium(rng);
+                chunks(rng, &mut ops, w, m);
+            }
+            ops.push(format!("w{}.{}", rng.range(1, 40), sd(rng)));
+            ops.push((*rng.pick(&["fl", "fl", "ck", "fd"])).into());
+            ops.push(format!("w{}.{}", rng.range(1, 40), sd(rng)));
+            ops.push("fl".into());
+            ops.push(format!("w{}.{}", *rng.pick(&[3usize, CAP + 5]), sd(rng)));
+        }
+    }
+    // how the history ends: drop, drop while the caller unwinds, flush, or with bytes left behind
+    match rng.below(10) {
+        0..=3 => ops.push("dr".into()),
+        4..=7 => ops.push("udrop".into()),
+        8 => ops.push("fl".into()),
+        _ => {}
     }
     format!(
         "writer s={} o={}",
